@@ -11,6 +11,7 @@ import h11
 
 from .._backends.base import NetworkStream
 from .._exceptions import (
+    ExceptionMapping,
     ConnectionNotAvailable,
     LocalProtocolError,
     RemoteProtocolError,
@@ -220,7 +221,13 @@ class HTTP11Connection(ConnectionInterface):
         self, timeout: float | None = None
     ) -> h11.Event | type[h11.PAUSED]:
         while True:
-            with map_exceptions({h11.RemoteProtocolError: RemoteProtocolError}):
+            # (The h11 package lets a ValueError escape for a Content-Length that
+            # is too long for Python to convert to an integer.)
+            exc_map: ExceptionMapping = {
+                h11.RemoteProtocolError: RemoteProtocolError,
+                ValueError: RemoteProtocolError,
+            }
+            with map_exceptions(exc_map):
                 event = self._h11_state.next_event()
 
             if event is h11.NEED_DATA:
